@@ -107,6 +107,9 @@ pub enum Op {
     Sleep { ns: u64 },
     /// clock jump (fault): time moves at once
     Jump { ns: u64 },
+    /// fault: the wall clock (what `SystemTime::now()` reads) is stepped back by `ns`, as an
+    /// administrator or a time daemon does; timers and sleeps keep following monotonic time
+    WallStepBack { ns: u64 },
     /// all clients stop, the system quiesces, a checkpoint is taken
     Barrier,
     Yield,
@@ -183,6 +186,7 @@ impl Op {
             Op::MaxCost => "max_cost",
             Op::Sleep { .. } => "sleep",
             Op::Jump { .. } => "jump",
+            Op::WallStepBack { .. } => "wall_step_back",
             Op::Barrier => "barrier",
             Op::Yield => "yield",
             Op::DropHandle => "drop_handle",
